@@ -425,6 +425,9 @@ func signJobs(cr *CheckRun) []Job {
 		add(3, 1, 5, 0)
 		add(2, 2, 2, 4)
 	}
+	// the node serves a second finished round with another polynomial and a larger threshold after the first one
+	jobs = append(jobs, Job{Pkg: nodePkg, Fn: "VF_NodeSign", Opts: opts, Tag: "n=3 t=2 tasks=1 order=0 then round2 t=3", Case: "t=2 then t=3",
+		Params: map[string]string{"t": "2", "ntasks": "1", "order": "0", "order2": "1", "tworounds": "1", "blob_axioms": "1", "blob_distinct": "1", "tag": fmt.Sprintf("sign_%d", len(jobs))}})
 	// message identifiers as arbitrary pairwise distinct strings (1..3 bytes) listed in any order
 	symids = "1"
 	add(3, 2, 0, 0)
@@ -434,7 +437,7 @@ func signJobs(cr *CheckRun) []Job {
 		add(2, 2, 5, 1)
 	}
 	symids = ""
-	cr.bounds["signing_scenario"] = "n=3; t=2 (two batches; the slow participant of batch 1 answers while batch 2 is collected) and t=3; 1..2 explicit messages per batch with 2 symbolic payload bytes, message ids concrete or (symbolic-ids jobs) (first batch) arbitrary distinct strings \"m\"+<any byte> in any listing order; arrival orders: quick 6 first-batch orders x 1 second-batch order each, thorough all 36 pairs; shares symbolic (index, value) with the validity predicate assumed for honest signers"
+	cr.bounds["signing_scenario"] = "n=3; one job continues on the same node with a second round (own polynomial, t=3) after the t=2 round; t=2 (two batches; the slow participant of batch 1 answers while batch 2 is collected) and t=3; 1..2 explicit messages per batch with 2 symbolic payload bytes, message ids concrete or (symbolic-ids jobs) (first batch) arbitrary distinct strings \"m\"+<any byte> in any listing order; arrival orders: quick 6 first-batch orders x 1 second-batch order each, thorough all 36 pairs; shares symbolic (index, value) with the validity predicate assumed for honest signers"
 	cr.bounds["outside"] = "BLS12-381 arithmetic and Ethereum-verifier agreement (contract: tbls.Recover returns Sig(poly,msg) when t valid shares with distinct indices are given and t >= #commitments); Byzantine partial signatures; n > 3; baked ranges inside batches (C17 covers their payloads)"
 	cr.assume = append(cr.assume,
 		"kyber contracts of engine/intrin_kyber.go (tbls.Recover, point decoding, NewPubPoly); a share value verifies for at most one message under one key share",
@@ -471,7 +474,7 @@ func init() {
 		cr.owner = func(l string) bool {
 			// an honest share verifies only for the payload it was made for: handing anything else to reconstruction shows
 			// as a rejected honest answer
-			return hasPrefixAny(l, "stored-payload-is-proposed", "proposal-entry-payload-is-proposed", "stored-is-recovered", "honest-answer-accepted")
+			return hasPrefixAny(l, "stored-payload-is-proposed", "proposal-entry-payload-is-proposed", "stored-is-recovered", "honest-answer-accepted", "stored-file-is-proposed", "proposal-entry-file-is-proposed")
 		}
 		runSign(cr)
 		cr.explanation = "Hot-node half of C03: the payload bytes handed to reconstruction (observable through Sig(poly, .)), the SrcPayload stored next to the signature and the payload stored at proposal time are byte-identical to the payload in the proposal on the board, for symbolic payloads. The airgapped signer's expansion uses the same TasksToMessages (C18/C17 cover it); the signer itself needs kyber and is outside."
